@@ -114,6 +114,7 @@ def run(ctx):
                               "scalars and points handed to the multiscalar multiplication are not chained as "
                               "(generator coeff, key coeffs, R coeffs) / (generator, keys, Rs) in matching order",
                               f.loc)
+        batch_item_kernel(ctx, f, v)
         # acceptance test
         acc = cmp_fact("eq", lambda t: is_call(t, name="mul") and mentions(t[2][0], call("vartime_multiscalar_mul"))
                        and is_call(t[2][1], name="cofactor"), lambda t: is_call(t, name="identity"), False)
@@ -141,3 +142,62 @@ def run(ctx):
                        mentions(t[2][0], lambda s: strip_newtype_fields(s) == ("arg", 1) and s != ("arg", 1)) and mentions(t[2][0], lambda s: is_field(s, "Challenge", "0")),
                        lambda t: is_call(t, name="identity"), False)
         refusal(ctx, g, "SEP", "single-verify-equation-gates-Ok", [("(zB-cA-R)*h==0", eqn)], ok_sinks(g))
+
+
+def batch_item_kernel(ctx, f, v):
+    """an item's contribution (generator coeff -= b*z, key coeff b*c, R coeff b) must be -b times the single-verification
+    form z*G - c*A - R (cofactor applied to the total afterwards), the code being its own oracle"""
+    from .. import algebra
+    from ..algebra import Alg, Unanalysable, show, eadd
+    from .c01 import eq_sides, f0
+    P = ctx.prog
+    g = P.fns.get(CORE + "verifying_key::VerifyingKey::<C>::verify_prehashed")
+    lr = loop_report(P, f)
+    if not g or not lr:
+        return
+    lp = lr[0]
+    sides = eq_sides(g, FnView.get(P, g))
+    if not sides:
+        return
+    def itf(*path):
+        def m(t):
+            for nm in reversed(path):
+                if not (t[0] == "field" and t[3] == nm):
+                    return False
+                t = t[1]
+            return t[0] == "some" and is_call(t[1], name="next")
+        return m
+    try:
+        lv = [(f0(arg(3), "z"), ("scal", "z")), (f0(arg(3), "R"), ("elem", "R")), (f0(arg(1), "element", "0"), ("elem", "A")),
+              (f0(arg(2), "0"), ("scal", "c")), (lambda t: is_call(t, name="cofactor"), ("scal", "h"))]
+        a, b = Alg(lv).val(sides[0]), Alg(lv).val(sides[1])
+        form = algebra.esubst(eadd(a[1], b[1], -1), {"h": ("scal", algebra.P(1))})
+        if form.get("G") == {("z",): -1}:
+            form = eadd({}, form, -1)
+        # the batch side
+        bl = [(lambda t: is_call(t, name="random"), ("scal", "b")), (itf("sig", "z"), ("scal", "z")), (itf("c", "0"), ("scal", "c")),
+              (lambda t: t[0] in ("phi", "loopvar"), ("scal", "acc"))]
+        al = Alg(bl)
+        contrib = {}
+        for (bb, t, ci) in f.calls():
+            if bb not in lp["body"] or not ci:
+                continue
+            a_ = v.call_args(bb)
+            if ci.get("name") == "sub" and len(a_) == 2 and a_[0][0] in ("phi", "loopvar"):
+                contrib["G"] = algebra.padd(al.val(("call", "core::ops::arith::Sub::sub", a_, None, None))[1], algebra.sym("acc"), -1)
+            if ci.get("name") == "push":
+                val = a_[1]
+                if itf("sig", "R")(val):
+                    pass
+                elif is_call(val, name="random"):
+                    contrib["R"] = al.val(val)[1]
+                elif mentions(val, itf("c", "0")):
+                    contrib["A"] = al.val(val)[1]
+        want = {k: algebra.pmul(p, {("b",): -1}) for k, p in form.items()}
+        ctx.check(contrib == want, "AGREE", f.key, "item==-blinder*(single-verification form)",
+                  "a batch item's contribution %s is not -b times the single-verification form %s: an item that verifies "
+                  "alone could fail in a batch or vice versa" % ({k: show(("scal", p)) for k, p in contrib.items()},
+                                                                 {k: show(("scal", p)) for k, p in form.items()}), f.loc,
+                  {"contribution": {k: show(("scal", p)) for k, p in contrib.items()}})
+    except Unanalysable as e:
+        ctx.violation("H", f.key, "batch-kernel:unanalysable", str(e), f.loc)
